@@ -1142,6 +1142,13 @@ fn replay_input(v: &Value) -> Option<Fail> {
 
 // ---------------------------------------------------------------- run
 
+/// class guards only make sense for a generated search (not under `vh replay`)
+fn req(cx: &mut Ctx, sub: &str, class: &str, min: u64) {
+    if cx.replay_entropy.is_none() {
+        cx.require_class(sub, class, min);
+    }
+}
+
 pub fn run(cx: &mut Ctx) {
     cx.assume("oracles are harness code: the G-json model (value known by construction), model path walk/replace, jsonval::jq_cmp (jq's documented total order, numbers as doubles), a strict RFC 4648 base64 decoder and a percent-decoder");
     cx.assume("results are read back through jq mode's own printer (OwnedValue::to_json / CLI -c) with O-jsonval; numbers compare as doubles, objects as unordered maps (key order differences are counted, not failed)");
@@ -1180,7 +1187,7 @@ pub fn run(cx: &mut Ctx) {
         },
     );
     for c in ["nontrivial", "root-object", "root-array", "object-root-entries", "non-ascii-string", "astral-string", "control-char-string", "number-beyond-2^53", "exponent-number", "extreme-number", "base64-one-pad", "base64-two-pad", "depth>=3"] {
-        cx.require_class("identities", c, 20);
+        req(cx, "identities", c, 20);
     }
 
     cx.check(
@@ -1198,7 +1205,7 @@ pub fn run(cx: &mut Ctx) {
         },
     );
     for c in ["nontrivial", "paths>=10", "path-len>=3", "non-ascii-string", "depth>=3"] {
-        cx.require_class("paths", c, 20);
+        req(cx, "paths", c, 20);
     }
 
     cx.check(
@@ -1225,7 +1232,7 @@ pub fn run(cx: &mut Ctx) {
         },
     );
     for c in ["has-equal-elements", "element-kinds>=4", "objects>=2", "arrays>=2", "non-ascii-string"] {
-        cx.require_class("sort-unique", c, 20);
+        req(cx, "sort-unique", c, 20);
     }
 
     cx.check(
@@ -1249,7 +1256,7 @@ pub fn run(cx: &mut Ctx) {
         },
     );
     for c in ["nontrivial", "fresh-key", "path-len>=3", "container-value", "replaces-container"] {
-        cx.require_class("assign", c, 20);
+        req(cx, "assign", c, 20);
     }
 
     if cli::cli_available() {
@@ -1259,7 +1266,7 @@ pub fn run(cx: &mut Ctx) {
             Budget { quick: 120, thorough: 5_000, max_len: 6000 },
             |u, st| check_cli(u, st),
         );
-        cx.require_class("cli-sample", "nontrivial", 20);
+        req(cx, "cli-sample", "nontrivial", 20);
     } else {
         cx.infra(format!("CLI binary not found at {}", cli::cli_path()));
     }
